@@ -152,6 +152,10 @@ func verifH_C03_trees() {
 		{"main/main.go": mainSrc, "lib": "package lib\n"},                                          // the import path names a file
 		{"main/main_test.go": mainSrc},                                                            // the Load target holds only a test file
 		{"main/main.go": "package main\n\nimport \"a/b/lib\"\n\nfunc Main() int {\n\treturn lib.F()\n}\n", "b/lib/lib_test.go": test, "lib/lib.go": lib}, // shortened path candidates
+		{"main/main.go": "// header\n\n/* never closed\npackage main\n"},                                    // the Load target starts with an unterminated block comment
+		{"main/main.go": "/*\n", "main/z.go": mainSrc, "lib/lib.go": lib},                                  // a file that is nothing but the start of a comment
+		{"main/main.go": mainSrc, "lib/lib.go": "\n\n// x\n/* open\n\n", "lib/ok.go": lib},                  // the same inside an imported package
+		{"main/main.go": "//go:build goat && (\n\npackage main\n"},                                        // malformed constraint expression
 		{"main/main.go": mainSrc, "lib/lib.go": lib}, // control: loads
 	}
 	k := verifChoice("tree", len(trees))
